@@ -115,7 +115,7 @@ Lemma conn_writev_loop_S : forall f (cid : Z) (segs : list (list Z)) (n : Z) (w 
   (
     let c := wc w cid in
     let et := l_et (st w) in
-    let iov := firstn 1024 segs in
+    let iov := firstn iov_max segs in
     match sys_wr cid (c_fd c) (List.concat iov) true w with
     | (KErr e, w1) =>
         if is_eagain e then
